@@ -159,6 +159,12 @@ func xzCases(c *hx.Ctx, seed int64) []xzCase {
 		cases = append(cases, xzCase{G: XZCfg{LC: 3, LP: 0, PB: 2, DictCap: []int{65536, 1 << 20}[k%2], BufSize: 4096, Check: 4, Matcher: 0},
 			Hist: []string{"W", "W", "C"}, Fixed: [][]byte{data[:70001], data[70001:]}, Tag: "marginal"})
 	}
+	// (4d) one repeat at a distance of exactly 2^e: the distance-slot boundaries of the coder
+	for _, e := range c.PickInts([]int{16, 20, 24}, []int{12, 13, 14, 15, 16, 17, 18, 19, 20, 21, 22, 23, 24}) {
+		data := MakeData("farrepeat", 1<<uint(e)+300, seed+int64(e))
+		cases = append(cases, xzCase{G: XZCfg{LC: 3, LP: 0, PB: 2, DictCap: 1 << 25, BufSize: 4096, Check: 1, Matcher: 0},
+			Hist: []string{"W", "W", "C"}, Fixed: [][]byte{data[:len(data)/3], data[len(data)/3:]}, Tag: "farrepeat"})
+	}
 	// (5) ring-wrap family: small dictionaries and look-ahead buffers, inputs several times
 	// longer than the encoder's ring (dictionary + look-ahead + 1) with matches at every
 	// distance around the wrap point; both match finders; written in odd-sized pieces
